@@ -118,3 +118,16 @@ Theorem C07_source_failures :
   thin_of "fn" "from_iter_length_fail" = Some "panic ! (""GenericArray::from_iter expected {length} items"")" /\
   thin_of "core::fmt::Display for LengthError" "fmt" = Some "f . write_str (""LengthError: Slice or iterator does not match GenericArray length"")".
 Proof. split; reflexivity. Qed.
+
+(* ---- T1: the signatures of this property's inherent methods / free functions as they stand in the source now
+        (coq/gen/GenSigs.v gen_fn_sigs): visibility, const / unsafe, generics, parameters, result, where-clause --
+        any `IntoIterator<Item = T>`, `Result<_, LengthError>` ---- *)
+From Coq Require Import String.
+From GA Require Import SigDefs.
+From GAGen Require Import GenSigs.
+Local Open Scope string_scope.
+
+Theorem C07_source_signatures :
+  sig_of "GenericArray<T,N> where N:ArrayLength" "try_from_iter" = Some "pub fn try_from_iter < I > (iter : I) -> Result < Self , LengthError > where I : IntoIterator < Item = T > ," /\
+  sig_of "GenericArray<T,N> where N:ArrayLength" "try_boxed_from_iter" = Some "pub fn try_boxed_from_iter < I > (iter : I) -> Result < Box < GenericArray < T , N > > , LengthError > where I : IntoIterator < Item = T > ,".
+Proof. repeat split. Qed.
